@@ -5,6 +5,8 @@
    BDT n tmat sigma    df[0..n+1] mid[0..n]       -> dt Q[(n+2)x(n+2)] r_t[(n+1)x(n+2)] (mid = median rates found)
    BOND J M  pu[] pm[] pd[]  z[(M)x(2J+1)] flow[0..M] acc[0..M] put[0..M] call[0..M] term
                                                  -> bondpure bondwithoption   (trinomial backward kernels)
+   BONDC  same input as BOND                        -> the same two values from the levels as stored (bondBackC, cpBackC)
+   BDTBOND M z[(M)x(M+1)] flow[0..M] acc[0..M] put[0..M] call[0..M] term -> bondpure bondwithoption (binomial kernels)
    OPT  J M  pu[] pm[] pd[]  z[(M)x(2J+1)] payoff[(M+1)x(2J+1)] ex[0..M]  -> value at the root
 -/
 import FinVerif.Driver.Util
@@ -83,7 +85,7 @@ def grid (J : Nat) (xs : Array Float) (m : Nat) (j : Int) : Float :=
 def vecP (J : Nat) (pu pm pd : Array Float) (j : Int) : P3 Float :=
   ⟨pu.getD (j + J).toNat 0.0, pm.getD (j + J).toNat 0.0, pd.getD (j + J).toNat 0.0⟩
 
-def bondOp (J M : Nat) (xs : Array Float) : String :=
+def bondOp (coded : Bool) (J M : Nat) (xs : Array Float) : String :=
   let w := 2 * J + 1
   let pu := xs.extract 0 w
   let pm := xs.extract w (2 * w)
@@ -98,15 +100,39 @@ def bondOp (J M : Nat) (xs : Array Float) : String :=
   let p := vecP J pu pm pd
   let zf := grid J z
   Id.run do
-    let mut bv : Array Float := tabA J (fun _ => term)
-    let mut cv : Array Float := tabA J (fun _ => cpClamp O (acc M) (put M) (call M) term)
+    -- `coded`: the levels as the routine stores them (`bondBackC`, `cpBackC`: written on -nm … nm, 0.0 elsewhere)
+    let wr := fun (m : Nat) (f : Int → Float) => if coded then onNodes O (nmOf J m) f else f
+    let mut bv : Array Float := tabA J (wr M (fun _ => term))
+    let mut cv : Array Float := tabA J (wr M (fun _ => cpClamp O (acc M) (put M) (call M) term))
     for d in [1:M+1] do
       let m := M - d
       let b := bv
       let c := cv
-      bv := tabA J (bondLevel J p (zf m) (flow m) (getI J b))
-      cv := tabA J (cpLevel O J p (zf m) (flow m) (acc m) (put m) (call m) (getI J c))
+      bv := tabA J (wr m (bondLevel J p (zf m) (flow m) (getI J b)))
+      cv := tabA J (wr m (cpLevel O J p (zf m) (flow m) (acc m) (put m) (call m) (getI J c)))
     return showFloats [getI J bv 0, getI J cv 0]
+
+/-- BDT backward kernels: `bdtBondBack`, `bdtCpBack` (one level at a time, tabulated).
+    xs = z[(M)x(M+1)] flow[0..M] acc[0..M] put[0..M] call[0..M] term -/
+def bdtBondOp (M : Nat) (xs : Array Float) : String :=
+  let w := M + 1
+  let o := M * w
+  let zf := fun (m : Nat) (k : Nat) => xs.getD (m * w + k) 0.0
+  let flow := fun m => xs.getD (o + m) 0.0
+  let acc := fun m => xs.getD (o + (M + 1) + m) 0.0
+  let put := fun m => xs.getD (o + 2 * (M + 1) + m) 0.0
+  let call := fun m => xs.getD (o + 3 * (M + 1) + m) 0.0
+  let term := xs.getD (o + 4 * (M + 1)) 0.0
+  Id.run do
+    let mut bv : Array Float := tabNA (M + 2) (fun _ => term)
+    let mut cv : Array Float := tabNA (M + 2) (fun _ => cpClamp O (acc M) (put M) (call M) term)
+    for d in [1:M+1] do
+      let m := M - d
+      let b := bv
+      let c := cv
+      bv := tabNA (M + 2) (fun k => if k ≤ m then bdtBondLevel O (zf m) (flow m) (fun i => b.getD i 0.0) k else 0.0)
+      cv := tabNA (M + 2) (fun k => if k ≤ m then bdtCpLevel O (zf m) (flow m) (acc m) (put m) (call m) (fun i => c.getD i 0.0) k else 0.0)
+    return showFloats [bv.getD 0 0.0, cv.getD 0 0.0]
 
 def optOp (J M : Nat) (xs : Array Float) : String :=
   let w := 2 * J + 1
@@ -147,8 +173,16 @@ def step (t : List String) : String :=
     | _, _ => "bad-op"
   | "BOND" :: j :: m :: rest =>
     match j.toNat?, m.toNat?, floats? rest with
-    | some J, some M, some xs => bondOp J M xs.toArray
+    | some J, some M, some xs => bondOp false J M xs.toArray
     | _, _, _ => "bad-op"
+  | "BONDC" :: j :: m :: rest =>
+    match j.toNat?, m.toNat?, floats? rest with
+    | some J, some M, some xs => bondOp true J M xs.toArray
+    | _, _, _ => "bad-op"
+  | "BDTBOND" :: m :: rest =>
+    match m.toNat?, floats? rest with
+    | some M, some xs => bdtBondOp M xs.toArray
+    | _, _ => "bad-op"
   | "OPT" :: j :: m :: rest =>
     match j.toNat?, m.toNat?, floats? rest with
     | some J, some M, some xs => optOp J M xs.toArray
